@@ -580,6 +580,48 @@ func CheckC08(e *Env) int {
 			cases = append(cases, superfluousMutants(p, p.ID, []string{"func", "bind"})...)
 		}
 	}
+	// injectors that construct nothing (the result is one of their own parameters, directly or
+	// through a binding) or a single value: anything else listed is superfluous all the same
+	for _, base := range passThroughBases() {
+		cases = append(cases, &RejectCase{P: base, Control: true, Cell: "control:" + base.Note})
+		cases = append(cases, superfluousMutants(base, base.ID, kinds)...)
+	}
 	runRejectCases(e, rep, cases, "c08")
 	return rep.Finish(t0)
+}
+
+// passThroughBases: accepted injectors whose plan has no provider call at all.
+func passThroughBases() []*Program {
+	var out []*Program
+	mk := func(name string, f func(b *PB)) {
+		b := NewPB("pt_"+name, "app")
+		f(b)
+		b.P.Note = "pass-through/" + name
+		b.P.Feat = map[string]string{"shape": "pass-through/" + name}
+		out = append(out, b.P)
+	}
+	mk("param-is-result", func(b *PB) {
+		c := b.Carrier(0, "Config")
+		b.Inj("Init", PtrTo(c), false, false, []Param{{Name: "c", Ty: PtrTo(c)}})
+	})
+	mk("param-behind-binding", func(b *PB) {
+		c := b.Carrier(0, "Config")
+		i := b.Iface(0, "Namer", PtrTo(c), true)
+		b.Inj("Init", i, false, false, []Param{{Name: "c", Ty: PtrTo(c)}}, ItemRef(b.Bind(i, PtrTo(c)).ID))
+	})
+	mk("two-params-one-returned", func(b *PB) {
+		c := b.Carrier(0, "Config")
+		d := b.Carrier(0, "Other")
+		b.Inj("Init", c, false, false, []Param{{Name: "c", Ty: c}, {Name: "d", Ty: d}})
+	})
+	mk("value-only", func(b *PB) {
+		c := b.Carrier(0, "Config")
+		b.Inj("Init", c, false, false, nil, ItemRef(b.Value(c).ID))
+	})
+	mk("field-of-param", func(b *PB) {
+		f := b.Carrier(0, "Fld")
+		par := b.P.NewDecl(0, "Parent", StructOf(idField, FieldT{Name: "Fld", Ty: f}), "parent")
+		b.Inj("Init", f, false, false, []Param{{Name: "p", Ty: Named(par)}}, ItemRef(b.Fields(Named(par), "Fld").ID))
+	})
+	return out
 }
